@@ -35,6 +35,7 @@ var rewrites = []rewrite{
 	{"metrics/counters.go", map[string]string{"sync/atomic": modPath + "/verifshim/vatomic"}},
 	{"metrics/verif_export.go", map[string]string{"sync/atomic": modPath + "/verifshim/vatomic"}},
 	{"metrics/histograms.go", map[string]string{"sync": modPath + "/verifshim/vsync", "sync/atomic": modPath + "/verifshim/vatomic"}},
+	{"metrics/endpoint.go", map[string]string{"sync": modPath + "/verifshim/vsync"}},
 	{"protocol/binprot/headers.go", map[string]string{"sync": modPath + "/verifshim/vsync"}},
 	{"handlers/memcached/batched/conn.go", map[string]string{"net": modPath + "/verifshim/vnet", "math/rand": modPath + "/verifshim/vrand"}},
 	{"handlers/memcached/batched/handler.go", map[string]string{"math/rand": modPath + "/verifshim/vrand"}},
@@ -87,7 +88,23 @@ func main() {
 			}
 		}
 		if rw.file == "handlers/memcached/batched/conn.go" {
-			injectYields(fset, f)
+			// the pooled connection and its buffers, which the batcher, the reader and the recovery
+			// goroutine share without a lock
+			injectYields(fset, f, func(n ast.Node) bool {
+				sel, ok := n.(*ast.SelectorExpr)
+				if !ok {
+					return false
+				}
+				id, ok := sel.X.(*ast.Ident)
+				return ok && id.Name == "c" && (sel.Sel.Name == "rw" || sel.Sel.Name == "conn")
+			}, 5, "touching c.rw / c.conn in batched/conn.go")
+		}
+		if rw.file == "metrics/histograms.go" {
+			// between taking a period's data out of a histogram and sorting / reading it
+			injectYields(fset, f, func(n ast.Node) bool {
+				id, ok := n.(*ast.Ident)
+				return ok && id.Name == "hdatPercentiles"
+			}, 1, "calling hdatPercentiles in metrics/histograms.go")
 		}
 		dst := filepath.Join(*work, strings.ReplaceAll(rw.file, "/", "__"))
 		w, err := os.Create(dst)
@@ -119,17 +136,14 @@ func main() {
 	}
 }
 
-// injectYields inserts vyield.Point("<func>:<line>") before every simple statement of conn.go that
-// mentions c.rw or c.conn (the pooled connection and its buffers, which the batcher, the reader and
-// the recovery goroutine share without a lock). It fails loudly if nothing is found.
-func injectYields(fset *token.FileSet, f *ast.File) {
+// injectYields inserts vyield.Point("<func>:<line>") before every simple statement containing a
+// node for which hit reports true. It fails loudly if fewer than min statements are found.
+func injectYields(fset *token.FileSet, f *ast.File, hit func(ast.Node) bool, min int, what string) {
 	mentions := func(n ast.Node) bool {
 		found := false
 		ast.Inspect(n, func(x ast.Node) bool {
-			if sel, ok := x.(*ast.SelectorExpr); ok {
-				if id, ok := sel.X.(*ast.Ident); ok && id.Name == "c" && (sel.Sel.Name == "rw" || sel.Sel.Name == "conn") {
-					found = true
-				}
+			if x != nil && hit(x) {
+				found = true
 			}
 			return !found
 		})
@@ -180,8 +194,8 @@ func injectYields(fset *token.FileSet, f *ast.File) {
 		}
 		walk(fn.Body)
 	}
-	if count < 5 {
-		die("yield injection found only %d statements touching c.rw / c.conn in batched/conn.go", count)
+	if count < min {
+		die("yield injection found only %d statements %s", count, what)
 	}
 	f.Imports = append(f.Imports, &ast.ImportSpec{Path: &ast.BasicLit{Kind: token.STRING, Value: strconv.Quote(modPath + "/verifshim/vyield")}})
 	for _, d := range f.Decls {
@@ -260,6 +274,29 @@ func VerifMutex() interface{} { return singleton.mutex }
 		die("%v", err)
 	}
 	replace[filepath.Join(repo, "handlers", "inmem", "verif_export.go")] = dst
+
+	// identities of the locks a /metrics scrape takes (C18 two-scraper exploration)
+	ep, err := os.ReadFile(filepath.Join(repo, "metrics", "endpoint.go"))
+	if err != nil {
+		die("%v", err)
+	}
+	hs, err := os.ReadFile(filepath.Join(repo, "metrics", "histograms.go"))
+	if err != nil {
+		die("%v", err)
+	}
+	if !strings.Contains(string(ep), "metricsReadLock = new(sync.Mutex)") || !strings.Contains(string(hs), "lock *sync.RWMutex") {
+		die("metrics: metricsReadLock / hist.lock are no longer declared as expected: the C18 lock export cannot be generated")
+	}
+	mexp := `package metrics
+
+// VerifScrapeLocks returns the scrape lock and the lock of one histogram (identities only).
+func VerifScrapeLocks(hist uint32) (interface{}, interface{}) { return metricsReadLock, hists[hist].lock }
+`
+	dst = filepath.Join(work, "metrics__verif_locks.go")
+	if err := os.WriteFile(dst, []byte(mexp), 0o644); err != nil {
+		die("%v", err)
+	}
+	replace[filepath.Join(repo, "metrics", "verif_locks.go")] = dst
 
 	// handle on the batching pool for C06/C13: grow the pool deterministically, read its size
 	rel, err := os.ReadFile(filepath.Join(repo, "handlers", "memcached", "batched", "relay.go"))
